@@ -11,7 +11,7 @@ from cpverif.models import rowmodel as RM
 
 LEVEL = "exploration"
 RULE = (
-    "enumerated argv shapes: CID in {valid, rejected, missing as .csv/.ods/.xls/.xlsx} x every ordered list of 0-3 data "
+    "enumerated argv shapes: CID in {valid, rejected by its contents, rejected because its container cannot be parsed (junk after a quote, unterminated quote, not UTF-8, text files named .ods/.xls/.xlsx), missing as .csv/.ods/.xls/.xlsx} x every ordered list of 0-3 data "
     "files over {accepted, rejected by a field, rejected by IsUnique, two files sharing keys with each other, failing the "
     "distinct count, missing, directory} x --until in {absent, -1, 0, 1, 2, -2, x} for delimited CIDs, a reduced set for "
     "fixed / ODS / XLSX data, and an injected read error (EIO) in the middle of a file; run in-process through "
@@ -51,6 +51,20 @@ class Setup(object):
         broken = self.model.cid_rows()
         broken[-3][5] = "NoSuchType"
         self.cids["rejected"] = self._write_cid("cid_rejected.csv", broken)
+        # CIDs that are rejected before any row is interpreted: the container itself cannot be parsed
+        def raw(name, data):
+            path = os.path.join(self.dir, name)
+            with open(path, "wb") as f:
+                f.write(data)
+            return path
+
+        text = storage.delimited_text(self.model.cid_rows()).encode("utf-8")
+        self.cids["rejected-junk-after-quote"] = raw("cid_junk.csv", b'D,Format,"Delimited"x\r\n' + text)
+        self.cids["rejected-unterminated-quote"] = raw("cid_quote.csv", text + b'F,"last')
+        self.cids["rejected-not-utf8"] = raw("cid_latin.csv", text + b"F,n\xe4me,,,,Text\r\n")
+        self.cids["rejected-fake-ods"] = raw("cid_fake.ods", text)
+        self.cids["rejected-fake-xlsx"] = raw("cid_fake.xlsx", text)
+        self.cids["rejected-fake-xls"] = raw("cid_fake.xls", text)
         for suffix in ("csv", "ods", "xls", "xlsx"):
             self.cids["missing-" + suffix] = os.path.join(self.dir, "no_such_cid." + suffix)
         self.files = {}
@@ -107,7 +121,7 @@ def expected_code(setup, cid, files, until):
         return "SystemExit(2)"
     if cid.startswith("missing"):
         return 3
-    if cid == "rejected":
+    if cid.startswith("rejected"):
         return 1
     limit = None if until in (None, "-1") else int(until)
     verdicts = [setup.api_verdict(name, limit) for name in files]
